@@ -10,7 +10,7 @@ W=/tmp/vh-mut-wt-$$
 git -C /repo worktree add -q --detach $W HEAD || exit 2
 trap 'git -C /repo worktree remove --force '$W EXIT INT TERM
 git -C $W apply "$P" || { echo "patch does not apply: $P"; exit 2; }
-cd /verif
+cd "$(dirname "$(readlink -f "$0")")/.."
 for id in "$@"; do
   out=$(VERIF_LOPDF_PATH=$W VERIF_TARGET=/tmp/vh-mut-target VERIF_OUT_DIR=/tmp/vh-mut-out ./check "$id" --tier ${TIER:-quick} 2>&1); rc=$?
   n=$(printf '%s\n' "$out" | grep -c '^VIOLATION')
